@@ -86,7 +86,10 @@ func (r *schemaLoader) transitiveResolver(basePath string, ref Ref) *schemaLoade
 
 	baseRef := MustCreateRef(basePath)
 	currentRef := normalizeRef(&ref, basePath)
-	if strings.HasPrefix(currentRef.String(), baseRef.String()) {
+	currentDoc := *currentRef.GetURL()
+	currentDoc.Fragment = ""
+	if currentDoc.String() == baseRef.String() {
+		// same document: only the fragment differs
 		return r
 	}
 
